@@ -43,7 +43,8 @@ func genKeys(t *rapid.T, s bridge.SuiteSel) bridge.KeySet {
 }
 
 func genSuite(t *rapid.T) bridge.SuiteSel {
-	return bridge.SuiteSel{Encr: rapid.IntRange(0, 2).Draw(t, "encr"), Integ: rapid.IntRange(0, 2).Draw(t, "integ"), Prf: rapid.IntRange(0, 2).Draw(t, "prf"), DH: rapid.IntRange(0, 1).Draw(t, "dh")}
+	return bridge.SuiteSel{Encr: rapid.IntRange(0, 2).Draw(t, "encr"), Integ: rapid.IntRange(0, 2).Draw(t, "integ"), Prf: rapid.IntRange(0, 2).Draw(t, "prf"), DH: rapid.IntRange(0, 1).Draw(t, "dh"),
+		ViaProposal: rapid.IntRange(0, 2).Draw(t, "viaproposal") == 2}
 }
 
 func genProt(t *rapid.T, o gen.Opts) protIn {
